@@ -88,7 +88,7 @@ def families(changed):
 # (b) line granularity
 # ------------------------------------------------------------------------------------------
 def pick_strategy(rng, n_workers, total_steps, fn_counts):
-    kind = rng.choice(['uniform', 'uniform', 'few', 'few', 'pct', 'directed', 'directed',
+    kind = rng.choice(['uniform', 'uniform', 'few', 'pct', 'directed', 'directed', 'directed',
                        'aligned'])
     if kind == 'uniform':
         return threads.Uniform(rng, rng.choice([0.001, 0.01, 0.1, 1.0]))
@@ -436,7 +436,7 @@ def plan(tier, master):
         for lo in range(0, 900, 15):
             runs.append({'kind': 'sweep', 'seed': kernel.run_seed(PROP, master, f'sweep-{p}'),
                          'dir': d, 'occ': o, 'lo': lo, 'hi': lo + 15, 'dense': p % 2 == 0})
-    n_jobsets = 64 if tier == 'quick' else 3000     # x SCHEDULES_PER_JOBSET simulated runs
+    n_jobsets = 96 if tier == 'quick' else 3000     # x SCHEDULES_PER_JOBSET simulated runs
     per = 2
     for i in range(0, n_jobsets, per):
         runs.append({'kind': 'line', 'seeds': [kernel.run_seed(PROP, master, i + j)
